@@ -452,9 +452,20 @@ def gen_cases(ctx, n):
         ftext = "\n".join(["from %s import *" % H] + ([r.choice(["import os", "from %s import *" % r.choice(importable)])] if importable else [])
                           + ["_z = 1"]) + "\n"
         fileprogs = [{"dir": PD, "file": "%s/main.py" % PD, "text": ftext}]
+        # bin/collect-exports with 1-4 modules per invocation (overlapping export lists, sometimes a failing one)
+        cli = None
+        if i % 2 == 0 and importable:
+            cli = r.sample(importable, min(len(importable), r.randint(1, 4)))
+            if r.random() < .2:
+                cli.insert(r.randint(0, len(cli)), r.choice(failing))
+            if r.random() < .15:
+                cli.append(cli[0])
+        # the log level is environment: the observables must not depend on it
+        env = {2: "debug", 5: "warning"}.get(i % 6, "")
+        set_level = {4: "DEBUG", 1: "INFO"}.get(i % 6)
         cases.append({"kind": "tree", "i": i, "stream": stream, "files": files, "mods": mods,
                       "programs": programs, "failing": failing, "bfiles": bfiles, "dirs": dirs, "pycs": pycs,
-                      "fileprogs": fileprogs, "links": links})
+                      "fileprogs": fileprogs, "links": links, "cli": cli, "env": env, "set_level": set_level})
     return cases
 
 
@@ -651,7 +662,56 @@ def _exports_of(name):
     return sorted(set(i.import_as for i in e)), sorted([i.fullname, i.import_as] for i in e)
 
 
+ENVS = {"": None, "debug": {"PYFLYBY_LOG_LEVEL": "DEBUG"}, "warning": {"PYFLYBY_LOG_LEVEL": "WARNING"}}
+
+
+def run_partitioned(cases, timeout_case):
+    """run_impl per environment group (log level set at import time through PYFLYBY_LOG_LEVEL)"""
+    results = [None] * len(cases)
+    groups = {}
+    for idx, c in enumerate(cases):
+        groups.setdefault(c.get("env") or "", []).append(idx)
+    for key in sorted(groups):
+        idxs = groups[key]
+        rs = cm.run_impl("c19", "impl_case", [cases[i] for i in idxs], timeout_case=timeout_case, env_extra=ENVS[key])
+        for i, r in zip(idxs, rs):
+            results[i] = r
+    return results
+
+
 def impl_case(c):
+    saved_level = None
+    if c.get("set_level"):
+        from pyflyby._log import logger as _lg
+        saved_level = _lg.level
+        _lg.set_level(c["set_level"])
+    try:
+        return _impl_case(c)
+    finally:
+        if saved_level is not None:
+            _lg.setLevel(saved_level)
+
+
+def run_collect_exports(root, args):
+    """bin/collect-exports as a real command; what it printed, per module, parsed with ast"""
+    env = dict(os.environ)
+    env["PYTHONPATH"] = "%s/lib/python:%s" % (cm.REPO, root)
+    p = subprocess.run([sys.executable, os.path.join(cm.REPO, "bin", "collect-exports")] + list(args),
+                       capture_output=True, text=True, env=env, cwd=root, timeout=120)
+    printed = []
+    try:
+        for n in ast.parse(p.stdout).body:
+            if isinstance(n, ast.ImportFrom) and n.level == 0:
+                printed.append([n.module, sorted((a.asname or a.name) for a in n.names), sorted(a.name for a in n.names)])
+            else:
+                printed.append(["<other>", [ast.dump(n)[:80]], []])
+    except SyntaxError as e:
+        printed = [["<unparsable>", [str(e)], []]]
+    return {"args": list(args), "rc": p.returncode, "printed": printed, "stdout": p.stdout[-2000:],
+            "problems": [l for l in p.stderr.splitlines() if "there were problems" in l]}
+
+
+def _impl_case(c):
     import pyflyby._imports2s as S
     from pyflyby._importstmt import ImportStatement
     from pyflyby._modules import ModuleHandle
@@ -751,6 +811,8 @@ def impl_case(c):
         for m in c["mods"]:
             if m.get("late"):
                 inspect_mod(m)       # after the program files: ModuleHandle has located the module by then
+        if c.get("cli"):
+            out["cli"] = run_collect_exports(root, c["cli"])
         # the real interpreter, in a fresh process
         job = {"root": root,
                "mods": [m["name"] for m in c["mods"] if not m.get("broken") or m.get("broken") in ("nonstr", "undefined_entry")],
@@ -890,6 +952,29 @@ def oracle_case(ctx, c, im):
             extra = [x for x in e if x not in star["names"]]
             if extra:
                 ctx.violation("exports_subset_of_star", {"case": c, "module": name}, "exported but not bound by the star import: %r" % extra)
+    # (2'') bin/collect-exports: for every module on the command line, exactly its export list is printed
+    cli = im.get("cli")
+    if cli:
+        ctx.bump("oracle:collect_exports_invocations")
+        ctx.bump("oracle:collect_exports_modules", len(cli["args"]))
+        want, bad = [], False
+        for mname in cli["args"]:
+            e = im["mods"].get(mname, {}).get("exports")
+            if e == "EXC":
+                bad = True
+            elif isinstance(e, list):
+                want.append([mname, e])
+        got = [[m_, names] for m_, names, orig in cli["printed"]]
+        aliased = [p_ for p_ in cli["printed"] if p_[1] != p_[2]]
+        merged_want, merged_got = {}, {}
+        for m_, names in want:
+            merged_want.setdefault(m_, set()).update(names)
+        for m_, names in got:
+            merged_got.setdefault(m_, set()).update(names)
+        if {k: sorted(v) for k, v in merged_want.items()} != {k: sorted(v) for k, v in merged_got.items()} or aliased:
+            ctx.violation("collect_exports_cli", {"case": c}, {"args": cli["args"], "printed": got, "expected": want, "stdout": cli["stdout"]})
+        if (cli["rc"] != 0) != bad or bool(cli["problems"]) != bad:
+            ctx.violation("collect_exports_cli_status", {"case": c}, {"args": cli["args"], "rc": cli["rc"], "some_module_failed": bad})
     # (3) programs
     for pi, (text, po, pr) in enumerate(zip(all_programs(c), im["programs"], real.get("programs", []))):
         if "exc" in po:
@@ -1010,6 +1095,7 @@ def compare(ctx, cases, impl, index, model):
                 ctx.bump("program_changed")
         oracle_case(ctx, c, im)
         ctx.bump("stream:" + c.get("stream", "corpus"))
+        ctx.bump("env:" + (c.get("env") or "default") + ("+set_level:" + c["set_level"] if c.get("set_level") else ""))
         ctx.count(c, nontriv)
         if nontriv:
             ctx.sample({"files": c["files"], "programs": all_programs(c),
@@ -1038,7 +1124,7 @@ def run(ctx):
     cm.check_anchors(ctx, ANCHORS)
     n *= getattr(ctx, "scale", 1)
     cases = cm.load_corpus("C19") + gen_cases(ctx, n)
-    impl = cm.run_impl("c19", "impl_case", cases, timeout_case=90)
+    impl = run_partitioned(cases, 90)
     exprs, index = model_exprs(cases, impl)
     model = cm.coq_eval_json(REQ, exprs, shard=150)
     compare(ctx, cases, impl, index, model)
@@ -1049,7 +1135,7 @@ def replay(payload):
     case = payload.get("case") or payload["disagreements"][0]["case"]
     if "case" in case and "files" not in case:
         case = case["case"]
-    impl = cm.run_impl("c19", "impl_case", [case], jobs=1, timeout_case=90)
+    impl = run_partitioned([case], 90)
     exprs, index = model_exprs([case], impl)
     model = cm.coq_eval_json(REQ, exprs)
     ctx = cm.Ctx("C19", "quick", payload.get("seed", 0))
